@@ -216,7 +216,44 @@ macro_rules! fmt_pulls {
 }
 
 // ---------------------------------------------------------------- byte-wise
+// moves an iterator (together with the haystack it owns) to another place in memory
+fn moved<I>(it: I) -> Box<I> { Box::new(it) }
+// the search entry points take the haystack BY VALUE (P: AsRef<[u8]>): an inline haystack ([u8; N]) is moved
+// with the iterator; the result must be the one of the borrowed slice
+macro_rules! byval {
+    ($pma:expr, $h:expr, $method:ident, [$($n:literal),*]) => {{
+        let h: &[u8] = $h;
+        let want: Vec<(usize, usize, String)> = $pma.$method(h).map(|m| (m.end().wrapping_sub(m.end() - m.start()), m.end(), m.value().show())).collect();
+        match h.len() {
+            $($n => { let mut a = [0u8; $n]; a.copy_from_slice(h);
+                      let it = moved($pma.$method(a));
+                      let got: Vec<(usize, usize, String)> = it.map(|m| (m.end().wrapping_sub(m.end() - m.start()), m.end(), m.value().show())).collect();
+                      Some(got == want) })*
+            _ => None,
+        }
+    }};
+}
+fn bw_byval<V: Val>(pma: &DoubleArrayAhoCorasick<V>, c: &Case, pre: &str, out: &mut String) {
+    for (j, h) in c.hays.iter().enumerate() {
+        let r = catch_unwind(AssertUnwindSafe(|| {
+            if c.kind == 0 {
+                let a = byval!(pma, h, find_iter, [0,1,2,3,4,5,6,7,8,9,10,11,12,13,14,15,16,17,18,19,20,21,22,23,24]);
+                let b = byval!(pma, h, find_overlapping_iter, [0,1,2,3,4,5,6,7,8,9,10,11,12,13,14,15,16,17,18,19,20,21,22,23,24]);
+                let d = byval!(pma, h, find_overlapping_no_suffix_iter, [0,1,2,3,4,5,6,7,8,9,10,11,12,13,14,15,16,17,18,19,20,21,22,23,24]);
+                match (a, b, d) { (Some(x), Some(y), Some(z)) => Some(x && y && z), _ => None }
+            } else {
+                byval!(pma, h, leftmost_find_iter, [0,1,2,3,4,5,6,7,8,9,10,11,12,13,14,15,16,17,18,19,20,21,22,23,24])
+            }
+        }));
+        match r {
+            Ok(Some(ok)) => writeln!(out, "{pre}BYVAL {j} {}", u8::from(ok)).unwrap(),
+            Ok(None) => {}
+            Err(_) => writeln!(out, "{pre}BYVAL {j} panic").unwrap(),
+        }
+    }
+}
 fn bw_searches<V: Val>(pma: &DoubleArrayAhoCorasick<V>, c: &Case, pre: &str, out: &mut String) {
+    bw_byval(pma, c, pre, out);
     for (j, h) in c.hays.iter().enumerate() {
         if c.kind == 0 {
             let t1 = fmt_matches!(out, format!("{pre}OVL"), j, pma.find_overlapping_iter(h));
